@@ -67,8 +67,9 @@ def compile_ir(src, name=None, extra_flags=(), passes=PASSES):
     """C file -> parsed Module (and path of the .ll)"""
     sd = common.scratch_dir()
     name = name or os.path.splitext(os.path.basename(src))[0]
-    ll0 = os.path.join(sd, name + '.0.ll')
-    ll = os.path.join(sd, name + '.ll')
+    # per-process file names: forked workers share the parent's scratch directory
+    ll0 = os.path.join(sd, '%s.%d.0.ll' % (name, os.getpid()))
+    ll = os.path.join(sd, '%s.%d.ll' % (name, os.getpid()))
     cmd = [CLANG] + cflags() + list(extra_flags) + ['-S', '-emit-llvm', src, '-o', ll0]
     r = subprocess.run(cmd, stdout=subprocess.PIPE, stderr=subprocess.STDOUT)
     if r.returncode != 0:
@@ -120,7 +121,7 @@ def check_layout(mod):
         g = '@o_%d' % len(items)
         lines.append('%s = global i64 ptrtoint (%s* getelementptr (%s, %s* null, i32 1) to i64)' % (g, q, q, q))
         items.append((n, 'size'))
-    p = os.path.join(sd, 'layout.ll')
+    p = os.path.join(sd, 'layout.%d.ll' % os.getpid())
     open(p, 'w').write('\n'.join(lines) + '\n')
     r = subprocess.run([OPT, '-S', '-O1', p, '-o', p + '.out'], stdout=subprocess.PIPE, stderr=subprocess.STDOUT)
     if r.returncode != 0:
